@@ -85,6 +85,8 @@ def inverse_sub_resolver(op: Op, repository: SubRepository) -> Sub | None:
             io = o
         builder.add_op(io, qubits, regs)
 
+    builder.add_phase(-target_sub.phase)
+
     return builder.build()
 
 
